@@ -1,54 +1,85 @@
 // C15 harness: the real tlx sorting networks behind the line protocol.
 //
 //   c15 run                       line protocol on stdin/stdout
-//   c15 zofails [max-per-network] enumerate all 2^n zero-one inputs of every family, entry
-//                                 point and n = 0..16 on the real code and print one
-//                                 `run ...` line per failing input (the search of DESIGN §3)
+//   c15 zofails [max-per-network] enumerate all 2^n zero-one inputs of every family, entry point,
+//                                 n = 0..16 and iterator kind on the real code and print one
+//                                 `run` / `runi` line per failing input (the search of DESIGN §3)
+//
+// Elements are (key, tag = original position) with *observable move semantics*: a moved-from
+// element is poisoned (key = -999999937, tag = -1), so a compare-exchange that reads a moved-from
+// object, drops one of two equivalent elements or forgets a write-back is visible in the output.
 //
 // Protocol:
 //   run <family> <direct|dispatch> <n> <lt|gt|q4|def> <k0,k1,...|->
-//        elements are (key, tag = original position); order lt: key<, gt: key>, q4: key/4 <
-//        (many equivalent-but-distinct keys), def: the entry point's *default* cswap /
-//        comparator (operator< of the element = key<).  Answer: `key:tag,...` after the call.
-//        Direct oracle: the answer is a permutation of the input, in non-decreasing order.
-//   zo <family> <direct|dispatch> <n>
-//        all 2^n zero-one inputs through the real code (input m puts bit n-1-k of m on position k,
-//        the numbering of the model's `wiresRec`); answer `fails=<#unsorted outputs>
-//        sig=<fnv64 of the bit-parallel output words>` (compared with the model's
-//        bit-parallel evaluation, i.e. with the object of the `decide +kernel` theorems).
+//        through a plain pointer.  order lt: key<, gt: key>, q4: key/4 < (many equivalent-but-
+//        distinct keys), def: the entry point's *default* cswap / comparator (operator< = key<).
+//        Answer: `key:tag,...` after the call.  Direct oracle: the answer is in non-decreasing
+//        order and is a permutation of the input *elements* (every tag once, with its own key).
+//   runi <ptr|rev|deque|stride> <variant> <family> <direct|dispatch> <n> <ord> <keys>
+//        the same through another random-access iterator kind (c15_entry.hpp `Seq`):
+//        rev = std::reverse_iterator over a slice in the middle of a larger buffer, deque =
+//        std::deque iterators with the elements straddling a block boundary (variant moves the
+//        split), stride = user-defined iterator with stride 3.  Same answer as `run`; additional
+//        oracle: every cell outside the sequence is untouched.
+//   zo <family> <direct|dispatch> <n> [kind]
+//        all 2^n zero-one inputs (with tags) through the real code (input m puts bit n-1-k of m on
+//        position k, the numbering of the model's `wiresRec`); answer `fails=<#unsorted outputs>
+//        permfails=<#outputs that are not a permutation of the input elements / touched guards>
+//        sig=<fnv64 of the bit-parallel output words>` (compared with the model's bit-parallel
+//        evaluation, i.e. with the object of the `decide +kernel` theorems).
 #include "c15_entry.hpp"
 #include "common.hpp"
 
 #include <algorithm>
 
+static const long long POISON = -999999937LL;
+
 struct Elem {
     long long key;
     int tag;
+    Elem() : key(0), tag(0) {}
+    Elem(long long k, int t) : key(k), tag(t) {}
+    Elem(const Elem& o) = default;
+    Elem& operator=(const Elem& o) = default;
+    Elem(Elem&& o) noexcept : key(o.key), tag(o.tag) { o.key = POISON; o.tag = -1; }
+    Elem& operator=(Elem&& o) noexcept {
+        if (this != &o) { key = o.key; tag = o.tag; o.key = POISON; o.tag = -1; }
+        return *this;
+    }
     bool operator<(const Elem& o) const { return key < o.key; }
+    static Elem guard(long id) { return Elem(-777000000LL - id, int(-1000 - id)); }
+    bool same(const Elem& o) const { return key == o.key && tag == o.tag; }
 };
 
-struct CmpLt { bool operator()(const Elem& a, const Elem& b) const { return a.key < b.key; } };
-struct CmpGt { bool operator()(const Elem& a, const Elem& b) const { return a.key > b.key; } };
 static long long fdiv4(long long k) { return k >= 0 ? k / 4 : -((-k + 3) / 4); }
-struct CmpQ4 { bool operator()(const Elem& a, const Elem& b) const { return fdiv4(a.key) < fdiv4(b.key); } };
+// one comparator type for the three explicit orders (keeps the number of template instantiations down)
+struct Cmp {
+    char mode;   // 'l' key<, 'g' key>, 'q' key/4 <
+    bool operator()(const Elem& a, const Elem& b) const {
+        return mode == 'g' ? a.key > b.key : mode == 'q' ? fdiv4(a.key) < fdiv4(b.key) : a.key < b.key;
+    }
+};
 
 static bool less_by(const std::string& ord, const Elem& a, const Elem& b) {
-    if (ord == "gt") return CmpGt()(a, b);
-    if (ord == "q4") return CmpQ4()(a, b);
-    return CmpLt()(a, b);
+    Cmp c = {ord == "gt" ? 'g' : ord == "q4" ? 'q' : 'l'};
+    return c(a, b);
 }
 
-// heap array of exactly n elements: any access outside a[0..n) is an ASan report
-static bool run_real(int fam, int entry, int n, const std::string& ord, std::vector<Elem>& v) {
-    Elem* a = v.data();
-    if (ord == "lt") return c15::call(fam, entry, n, a, CmpLt());
-    if (ord == "gt") return c15::call(fam, entry, n, a, CmpGt());
-    if (ord == "q4") return c15::call(fam, entry, n, a, CmpQ4());
+struct Caller {
+    int fam, entry, n;
+    const std::string* ord;
+    template <typename It>
+    bool operator()(It a) const {
+        if (*ord == "lt" || *ord == "gt" || *ord == "q4") {
+            Cmp c = {*ord == "gt" ? 'g' : *ord == "q4" ? 'q' : 'l'};
+            return c15::call(fam, entry, n, a, c);
+        }
 #ifndef C15_NO_DEFAULT
-    if (ord == "def") return entry == 0 ? c15::call_direct_default(fam, n, a) : c15::call_dispatch_default(fam, n, a);
+        if (*ord == "def") return entry == 0 ? c15::call_direct_default(fam, n, a) : c15::call_dispatch_default(fam, n, a);
 #endif
-    return false;
-}
+        return false;
+    }
+};
 
 static std::string show(const std::vector<Elem>& v) {
     if (v.empty()) return "-";
@@ -59,30 +90,73 @@ static std::string show(const std::vector<Elem>& v) {
 
 static int entry_of(const std::string& s) { return s == "direct" ? 0 : (s == "dispatch" ? 1 : -1); }
 
+// run the real code on `keys` laid out in `seq`; out = the sequence afterwards
+static bool run_in(c15::Seq<Elem>& seq, int fam, int entry, const std::string& ord,
+                   const std::vector<long long>& keys, std::vector<Elem>& out, bool& guards_ok) {
+    int n = seq.n;
+    for (int i = 0; i < n; ++i) seq.at(i) = Elem(keys[size_t(i)], i);
+    Caller call = {fam, entry, n, &ord};
+    bool ok = seq.apply(call);
+    out.resize(size_t(n));
+    for (int i = 0; i < n; ++i) out[size_t(i)] = seq.at(i);
+    guards_ok = seq.guards_ok();
+    return ok;
+}
+
+static bool run_seq(int kind, int variant, int fam, int entry, int n, const std::string& ord,
+                    const std::vector<long long>& keys, std::vector<Elem>& out, bool& guards_ok) {
+    c15::Seq<Elem> seq(kind, n, variant);
+    return run_in(seq, fam, entry, ord, keys, out, guards_ok);
+}
+
+// the output elements are exactly the input elements: every tag once and carrying its own key
+static bool is_perm(const std::vector<long long>& keys, const std::vector<Elem>& out) {
+    std::vector<char> seen(keys.size(), 0);
+    for (const Elem& e : out) {
+        if (e.tag < 0 || size_t(e.tag) >= keys.size() || seen[size_t(e.tag)] || e.key != keys[size_t(e.tag)]) return false;
+        seen[size_t(e.tag)] = 1;
+    }
+    return out.size() == keys.size();
+}
+
 static bool sorted01(const std::vector<Elem>& v) {
     for (size_t i = 1; i < v.size(); ++i)
         if (v[i].key < v[i - 1].key) return false;
     return true;
 }
 
+static void zo_keys(unsigned long m, int n, std::vector<long long>& keys) {
+    keys.resize(size_t(n));
+    for (int k = 0; k < n; ++k) keys[size_t(k)] = (m >> (n - 1 - k)) & 1;
+}
+
 static int zofails(int maxper) {
-    for (int fam = 0; fam < 3; ++fam)
-        for (int entry = 0; entry < 2; ++entry)
-            for (int n = 0; n <= 16; ++n) {
-                if (!c15::exists(fam, entry, n)) continue;
-                int found = 0;
-                std::vector<Elem> v(n);
-                for (unsigned long m = 0; m < (1ul << n) && found < maxper; ++m) {
-                    for (int k = 0; k < n; ++k) { v[k].key = (m >> (n - 1 - k)) & 1; v[k].tag = k; }
-                    c15::call(fam, entry, n, v.data(), CmpLt());
-                    if (!sorted01(v)) {
-                        ++found;
-                        std::cout << "run " << c15::family_name[fam] << ' ' << c15::entry_name[entry] << ' ' << n << " lt ";
-                        for (int k = 0; k < n; ++k) std::cout << (k ? "," : "") << ((m >> (n - 1 - k)) & 1);
-                        std::cout << '\n';
+    const std::string lt = "lt";
+    for (int kind = 0; kind < c15::NUM_KINDS; ++kind)
+        for (int fam = 0; fam < 3; ++fam)
+            for (int entry = 0; entry < 2; ++entry)
+                for (int n = 0; n <= 16; ++n) {
+                    if (!c15::exists(fam, entry, n)) continue;
+                    if (kind != c15::K_PTR && n > 12 && n != 16) continue;   // keep the search cheap
+                    int found = 0;
+                    std::vector<long long> keys;
+                    std::vector<Elem> out;
+                    std::vector<c15::Seq<Elem> > pool;
+                    for (int v = 0; v < 4; ++v) pool.emplace_back(kind, n, v * 5 + 1);
+                    for (unsigned long m = 0; m < (1ul << n) && found < maxper; ++m) {
+                        zo_keys(m, n, keys);
+                        bool g = true;
+                        run_in(pool[m & 3], fam, entry, lt, keys, out, g);
+                        if (!sorted01(out) || !is_perm(keys, out) || !g) {
+                            ++found;
+                            if (kind == c15::K_PTR) std::cout << "run ";
+                            else std::cout << "runi " << c15::kind_name[kind] << ' ' << ((m & 3) * 5 + 1) << ' ';
+                            std::cout << c15::family_name[fam] << ' ' << c15::entry_name[entry] << ' ' << n << " lt ";
+                            for (int k = 0; k < n; ++k) std::cout << (k ? "," : "") << keys[size_t(k)];
+                            std::cout << '\n';
+                        }
                     }
                 }
-            }
     return 0;
 }
 
@@ -95,12 +169,15 @@ int main(int argc, char** argv) {
         if (t.empty()) { vh::answer(""); continue; }
         if (t[0][0] == '#') { vh::answer(line); continue; }
         if (t[0] == "case") { vh::answer("case"); continue; }
-        if (t[0] == "run" && t.size() == 6) {
-            int fam = c15::family_of(t[1].c_str()), entry = entry_of(t[2]);
-            int n = std::atoi(t[3].c_str());
-            const std::string& ord = t[4];
-            std::vector<long long> keys = vh::csv(t[5]);
-            if (fam < 0 || entry < 0 || !c15::exists(fam, entry, n) || int(keys.size()) != n ||
+        if ((t[0] == "run" && t.size() == 6) || (t[0] == "runi" && t.size() == 8)) {
+            size_t o = t[0] == "run" ? 0 : 2;
+            int kind = o ? c15::kind_of(t[1]) : c15::K_PTR;
+            int variant = o ? std::atoi(t[2].c_str()) : 0;
+            int fam = c15::family_of(t[1 + o].c_str()), entry = entry_of(t[2 + o]);
+            int n = std::atoi(t[3 + o].c_str());
+            const std::string& ord = t[4 + o];
+            std::vector<long long> keys = vh::csv(t[5 + o]);
+            if (kind < 0 || variant < 0 || fam < 0 || entry < 0 || !c15::exists(fam, entry, n) || int(keys.size()) != n ||
 #ifdef C15_NO_DEFAULT
                 ord == "def" ||   // the default-cswap calls do not compile against this tree (see checks/c15.py)
 #endif
@@ -108,46 +185,49 @@ int main(int argc, char** argv) {
                 vh::answer("bad-op");
                 continue;
             }
-            std::vector<Elem> v(n);
-            for (int i = 0; i < n; ++i) { v[i].key = keys[i]; v[i].tag = i; }
-            std::vector<Elem> in = v;
-            run_real(fam, entry, n, ord, v);
+            std::vector<Elem> v;
+            bool guards = true;
+            run_seq(kind, variant, fam, entry, n, ord, keys, v, guards);
             vh::answer(show(v));
-            // direct oracle: sorted permutation
+            std::string what = std::string(c15::kind_name[kind]) + " " + t[1 + o] + " " + t[2 + o] + " n=" + t[3 + o] + " ord=" + ord;
             std::string eff = ord == "def" ? "lt" : ord;
             for (int i = 1; i < n; ++i)
-                if (less_by(eff, v[i], v[i - 1])) {
-                    vh::viol("not-sorted " + t[1] + " " + t[2] + " n=" + t[3] + " ord=" + ord + " pos=" + std::to_string(i) +
-                             " input=" + t[5] + " output=" + show(v));
+                if (less_by(eff, v[size_t(i)], v[size_t(i - 1)])) {
+                    vh::viol("not-sorted " + what + " pos=" + std::to_string(i) + " input=" + t[5 + o] + " output=" + show(v));
                     break;
                 }
-            std::vector<std::pair<long long, int> > x, y;
-            for (int i = 0; i < n; ++i) { x.push_back({in[i].key, in[i].tag}); y.push_back({v[i].key, v[i].tag}); }
-            std::sort(x.begin(), x.end());
-            std::sort(y.begin(), y.end());
-            if (x != y)
-                vh::viol("not-a-permutation " + t[1] + " " + t[2] + " n=" + t[3] + " ord=" + ord + " input=" + t[5] + " output=" + show(v));
+            if (!is_perm(keys, v))
+                vh::viol("not-a-permutation " + what + " input=" + t[5 + o] + " output=" + show(v));
+            if (!guards)
+                vh::viol("outside-modified " + what + " input=" + t[5 + o] + " (cells that do not belong to the sequence were written)");
             continue;
         }
-        if (t[0] == "zo" && t.size() == 4) {
+        if (t[0] == "zo" && (t.size() == 4 || t.size() == 5)) {
             int fam = c15::family_of(t[1].c_str()), entry = entry_of(t[2]);
             int n = std::atoi(t[3].c_str());
-            if (fam < 0 || entry < 0 || !c15::exists(fam, entry, n)) { vh::answer("bad-op"); continue; }
+            int kind = t.size() == 5 ? c15::kind_of(t[4]) : c15::K_PTR;
+            if (fam < 0 || entry < 0 || kind < 0 || !c15::exists(fam, entry, n)) { vh::answer("bad-op"); continue; }
             size_t limbs = n <= 6 ? 1 : (size_t(1) << (n - 6));
-            std::vector<std::vector<uint64_t> > W(n, std::vector<uint64_t>(limbs, 0));
-            unsigned long fails = 0;
-            std::vector<Elem> v(n);
+            std::vector<std::vector<uint64_t> > W(size_t(n), std::vector<uint64_t>(limbs, 0));
+            unsigned long fails = 0, permfails = 0;
+            const std::string lt = "lt";
+            std::vector<long long> keys;
+            std::vector<Elem> v;
+            std::vector<c15::Seq<Elem> > pool;   // four layouts (deque: four split points), reused for all inputs
+            for (int q = 0; q < 4; ++q) pool.emplace_back(kind, n, q * 5 + 1);
             for (unsigned long m = 0; m < (1ul << n); ++m) {
-                for (int k = 0; k < n; ++k) { v[k].key = (m >> (n - 1 - k)) & 1; v[k].tag = k; }
-                c15::call(fam, entry, n, v.data(), CmpLt());
+                zo_keys(m, n, keys);
+                bool g = true;
+                run_in(pool[m & 3], fam, entry, lt, keys, v, g);
                 if (!sorted01(v)) ++fails;
+                if (!is_perm(keys, v) || !g) ++permfails;
                 for (int k = 0; k < n; ++k)
-                    if (v[k].key) W[k][m >> 6] |= uint64_t(1) << (m & 63);
+                    if (v[size_t(k)].key == 1) W[size_t(k)][m >> 6] |= uint64_t(1) << (m & 63);
             }
             uint64_t h = 14695981039346656037ULL;
             for (int k = 0; k < n; ++k)
-                for (size_t l = 0; l < limbs; ++l) h = (h ^ W[k][l]) * 1099511628211ULL;
-            vh::answer("fails=" + std::to_string(fails) + " sig=" + std::to_string(h));
+                for (size_t l = 0; l < limbs; ++l) h = (h ^ W[size_t(k)][l]) * 1099511628211ULL;
+            vh::answer("fails=" + std::to_string(fails) + " permfails=" + std::to_string(permfails) + " sig=" + std::to_string(h));
             continue;
         }
         vh::answer("bad-op");
